@@ -78,6 +78,11 @@ add("C04", "runtime monitor: liveness of the real receive loops (RawLinkLayer th
     "Frames whose GN headers a strict reference parser accepts (or whose secured part is authentic) go to both twins; for them only liveness is judged. Wall-clock watchdog 10 s per frame -> inconclusive.",
     "DESIGN.md 3/C04")
 
+add("C10", "runtime monitor: reference replay of the same report stream and check instants against time-stamped, decoded BTP requests of the real CA/VRU transmission managers under a virtual clock",
+    "Exploration: timed TPV trajectories (constant, accelerating, turning through 0/360 both ways, stop-and-go, jitter around the thresholds, dropouts up to 65.6 s, missing optional keys) at 1-50 Hz with start/stop/restart sequences and start times next to a generationDeltaTime wrap drive the real CAMTransmissionManagement (its threading.Timer rebound to the virtual timer; check instants read from the timer log) and the real VAMTransmissionManagement (time.time = virtual clock). Every emitted BTPDataRequest is time-stamped and decoded; the replay decides must / must-not / may per check: >= 100 ms spacing (also across restart), CAM at the first check with exceeded dynamics, at most T_GenCamMax + one check period, LF container in the first CAM and exactly from 500 ms on, nothing while inactive, content = latest report, generationDeltaTime = report ITS time mod 65536; VAM at the first report, >= 100 ms on report timestamps, a VAM at every report >= 5 s after the last, LF container in the first VAM and from 2 s on.",
+    "Threshold comparisons carry 1e-9 hysteresis (near-threshold cases become 'may'); a report arriving exactly at a check instant may be ordered either way; error estimates stay nominal (C11 covers extremes).",
+    "DESIGN.md 3/C10")
+
 NOT_YET = "check not built yet (work in progress; runtime monitor planned in DESIGN.md section 3)"
 
 def main():
